@@ -111,7 +111,7 @@ const FLAGS: &[&[&str]] = &[
 pub fn cases(deep: bool) -> Vec<(Case, Vec<&'static [&'static str]>)> {
     let mut out = Vec::new();
     let mut k = 0usize;
-    let mut flags_for = |k: usize| -> Vec<&'static [&'static str]> { if deep { FLAGS.to_vec() } else { vec![FLAGS[0], FLAGS[1 + k % (FLAGS.len() - 1)], FLAGS[1 + (k / 2 + 3) % (FLAGS.len() - 1)]] } };
+    let flags_for = |k: usize| -> Vec<&'static [&'static str]> { if deep { FLAGS.to_vec() } else { vec![FLAGS[0], FLAGS[1 + k % (FLAGS.len() - 1)], FLAGS[1 + (k / 2 + 3) % (FLAGS.len() - 1)]] } };
     for (group, ug) in [(P0, UG0), (P0S, UG0S), (P1, UG1), (P1, UG1A), (PN, UGN), (PC, UGC)] {
         let n = group.len();
         for i in 0..n {
